@@ -208,7 +208,7 @@ fn collect_msgs<'a>(ops: &'a [Op], out: &mut BTreeMap<u64, &'a Msg>) {
                 out.insert(m.id, m);
                 collect_msgs(&m.steps, out);
             }
-            Op::Cancel { op, .. } => collect_msgs(std::slice::from_ref(op), out),
+            Op::Cancel { op, .. } | Op::Unpolled(op) => collect_msgs(std::slice::from_ref(op), out),
             Op::Fork { ops, .. } => collect_msgs(ops, out),
             Op::Join(ops) | Op::Race(ops) => collect_msgs(ops, out),
             _ => {}
@@ -220,7 +220,7 @@ pub fn ops_contain(ops: &[Op], pred: &dyn Fn(&Op) -> bool) -> bool {
     ops.iter().any(|o| {
         pred(o)
             || match o {
-                Op::Cancel { op, .. } => ops_contain(std::slice::from_ref(op), pred),
+                Op::Cancel { op, .. } | Op::Unpolled(op) => ops_contain(std::slice::from_ref(op), pred),
                 Op::Fork { ops, .. } => ops_contain(ops, pred),
                 Op::Join(ops) | Op::Race(ops) => ops_contain(ops, pred),
                 _ => false,
@@ -427,7 +427,7 @@ impl<'a> History<'a> {
     pub fn find_op(&self, who: Who, k: u32) -> Option<&Op> {
         fn unwrap_cancel(o: &Op) -> &Op {
             match o {
-                Op::Cancel { op, .. } => unwrap_cancel(op),
+                Op::Cancel { op, .. } | Op::Unpolled(op) => unwrap_cancel(op),
                 x => x,
             }
         }
@@ -445,7 +445,7 @@ impl<'a> History<'a> {
                             return Some(x);
                         }
                     }
-                    Op::Cancel { op, .. } => {
+                    Op::Cancel { op, .. } | Op::Unpolled(op) => {
                         if let Some(x) = find_fork(std::slice::from_ref(op), id) {
                             return Some(x);
                         }
